@@ -1,7 +1,7 @@
 SPECIFICATION SimSpec
 CONSTANTS
   CfgChoices <- CfgsSim
-  CtrlChoices <- CtrlsSim
+  CtrlChoices <- CtrlsSimD
   MethodChoices <- MethodsSim
   TypeChoices <- NoTypes
   MaxCtrls = 3
